@@ -140,8 +140,7 @@ class InstanceReport:
                 r3, m3 = ctx.model(negated, *shape)
                 self.solver_ms += (time.time() - t1) * 1000
                 if r3 == z3.sat:
-                    m = m3
-                    real = False
+                    m = m3   # with real=True the shaped model is the starting point of real_witness (tried first, kept if it holds with the true functions)
             else:
                 t1 = time.time()
                 r3, m3 = shaped_model(ctx, negated)
